@@ -15,6 +15,7 @@ prefixed"); do_lineprefix against an independent specification on all short stri
 """
 import ast
 import itertools
+import zlib
 import re
 import typing
 
@@ -162,7 +163,15 @@ def spec_lineprefix(s: str, prefix: str) -> str:
 PIECES = ["x", "{{ a }}", "{{ a|upper }}", "{% if b %}T{% else %}F{% endif %}", "{% for i in l %}[{{ i }}]{% endfor %}", "{% set z = a ~ '!' %}{{ z }}", "\n",
           "  {%- if b %} T {%- endif %}  ", "{# c #}", "{% raw %}{{ r }}{% endraw %}", "{% filter upper %}f{{ a }}{% endfilter %}",
           "{% macro m(q) %}<{{ q }}>{% endmacro %}{{ m(a) }}", "{{ l|join(',') }}", "{{ a if b else 'n' }}", "{% for i in l if i > 1 %}{{ loop.index }}{% else %}E{% endfor %}", "{{ '{{' }}", " * ", "{ %",
-          "{% if b -%}\n  A\n{%- endif %}", "{{ a }}\n{{ a }}\r\n", "{% raw -%}   r {{ q }}  {%- endraw %}", "  {%- raw %} s {% endraw -%}  ", "{# c -#}   "]
+          "{% if b -%}\n  A\n{%- endif %}", "{{ a }}\n{{ a }}\r\n", "{% raw -%}   r {{ q }}  {%- endraw %}", "  {%- raw %} s {% endraw -%}  ", "{# c -#}   ",
+          # whitespace control across line breaks (raw, comment, block, variable tags)
+          "a {% raw -%}\n  x {{ y }} {% endraw %} b", "a {% raw %} x {%- endraw -%}\n\t b", "{# c -#}\n  t", "{{ a -}}\n  u", "v  \n{{- a }}", "{% if b -%}\n\n  w{% endif %}",
+          # expression grammar: associativity and precedence of the ordinary constructs
+          "{{ 1 if b else 2 if not b else 3 }}", "{{ 'p' if not b else 'q' if b else 'r' }}", "{{ 2 + 3 * 4 - 10 // 3 }}", "{{ 2 ** 3 ** 2 }}", "{{ -2 ** 2 }}", "{{ 7 - 2 - 1 }}", "{{ 1 < 2 < 3 }}",
+          "{{ not b and b or b }}", "{{ a ~ 1 + 2 ~ a }}", "{{ l[1:] | length + 1 }}", "{{ (l | first) if l else 'none' }}", "{{ a is string and a is not none }}", "{{ 2 in l or 5 not in l }}",
+          "{{ {'k': a}['k'] ~ [a, 1][1] }}", "{{ a | replace('v', 'V') | upper | default('d') }}", "{{ l | map('string') | join('-') }}", "{% set q %}[{{ a }}]{% endset %}{{ q }}",
+          "{% with t = a ~ a %}{{ t }}{% endwith %}", "{% for k, v in {'x': 1}.items() %}{{ k }}={{ v }}{% endfor %}", "{% if b %}1{% elif a %}2{% else %}3{% endif %}",
+          "{% for i in l %}{% if loop.first %}F{% endif %}{{ loop.revindex }}{% if not loop.last %},{% endif %}{% endfor %}", "{{ '%s-%s' | format(a, 1) }}", "{{ a[0] ~ a[-1] }}"]
 CONTEXTS = [{"a": "v", "b": True, "l": [1, 2, 3]}, {"a": "<w>\n2", "b": False, "l": []}]
 
 
@@ -177,7 +186,9 @@ def differential(run, args):
         be, se = J.Environment(**kw), S.Environment(**kw)
         for k in range(1, depth + 1):
             for combo in itertools.product(PIECES, repeat=k):
-                if k == 3 and (hash(combo) % 7):  # thorough: a seventh of the triples
+                if k == 2 and len(PIECES) > 30 and args.tier != 'thorough' and (zlib.crc32(''.join(combo).encode()) % 3):  # every-change tier: a deterministic third of the pairs
+                    continue
+                if k == 3 and (zlib.crc32(''.join(combo).encode()) % 23):  # thorough: a deterministic 23rd of the triples
                     continue
                 t = "".join(combo)
                 if re.search(r"(\{%|\{\{|\{#)\*", t):
@@ -208,6 +219,12 @@ def marker_semantics(run, args):
             for pre in ("", "  ", "\t", "    "):
                 cases.append((f"X{nl}{pre}{{{{* v }}}}{nl}Y", f"X{nl}{{{{ vp }}}}{nl}Y", pre, val))
                 cases.append((f"X{nl}{pre}{{%* if True %}}{{{{ v }}}}{{% endif %}}{nl}Y", f"X{nl}{{% if True %}}{{{{ vp }}}}{{% endif %}}{nl}Y", pre, val))
+                # every placement: the marker after text or after another tag on the same line (the whitespace that precedes
+                # it is still the prefix), and at the very start of the template
+                cases.append((f"key:{pre}{{{{* v }}}}{nl}Y", f"key:{{{{ vp }}}}{nl}Y", pre, val))
+                cases.append((f"{{{{ 'k' }}}}{pre}{{{{* v }}}}", f"{{{{ 'k' }}}}{{{{ vp }}}}", pre, val))
+                cases.append((f"X{nl}a{pre}{{%* if True %}}{{{{ v }}}}{{% endif %}}", f"X{nl}a{{% if True %}}{{{{ vp }}}}{{% endif %}}", pre, val))
+                cases.append((f"{pre}{{{{* v }}}}", f"{{{{ vp }}}}", pre, val))
     n = 0
     first = None
     for t, plain, pre, val in cases:
